@@ -1168,3 +1168,459 @@ Proof.
     + simpl in Hlen. destruct V; [ reflexivity | discriminate Hlen ].
     + inversion Hall as [| i l Hi _ ]; subst. lia.
 Qed.
+
+(* [covers] alone (same length, same first element) does not give alignment:
+   a permuted operand passes the guard and the shortcut returns the
+   coefficients in the operand's order, not in the problem's order. *)
+Example covers_not_sufficient :
+  let V := ["x"; "y"; "z"]%string in
+  let e := LinComb [1; 2; 3]%Q (KVar 0%N) [Var "x"; Var "z"; Var "y"] in
+  wf e = true /\ is_linear e = true /\ incl (vars e) V /\
+  covers V (vec_names [Var "x"; Var "z"; Var "y"]) = true /\
+  fast_path V e = Some [1; 2; 3]%Q /\
+  all_coefs V e = [1; 3; 2]%Q /\
+  aligned V e = false.
+Proof.
+  vm_compute. repeat split; try reflexivity.
+  intros a H. simpl in H. simpl. tauto.
+Qed.
+
+(* ... and then the extracted row does not denote the expression: at the point
+   (x,y,z) = (0,1,0) the expression x + 2z + 3y is worth 3, the row gives 2 *)
+Example covers_not_sufficient_sem :
+  let V := ["x"; "y"; "z"]%string in
+  let e := LinComb [1; 2; 3]%Q (KVar 0%N) [Var "x"; Var "z"; Var "y"] in
+  let rho := env_of V [0; 1; 0] in
+  forall penv,
+    dotR (map Q2R (extract_all V e)) (map rho V) + Q2R (cterm e) = 2
+    /\ evalR rho penv e = 3.
+Proof.
+  intros V e rho penv.
+  assert (H : extract_all V e = [1; 2; 3]%Q) by (vm_compute; reflexivity).
+  rewrite H. unfold V, e, rho. simpl. unfold Q2R. simpl. split; lra.
+Qed.
+
+(* ------------------------------------------------------------------ *)
+(** * 3. The LP data denote the problem                                *)
+(* ------------------------------------------------------------------ *)
+
+(* what is assumed of every expression of the problem *)
+Definition expr_ok (V : list string) (e : expr) : Prop :=
+  wf e = true /\ nodiv0 e = true /\ incl (vars e) V /\
+  (forall r, fast_path V e = Some r -> aligned V e = true).
+
+Definition problem_ok (V : list string) (obj : expr) (cons : list (expr * sense)) : Prop :=
+  NoDup V /\
+  is_linear_problem obj cons = true /\
+  (forall e, In e (obj :: map fst cons) -> expr_ok V e).
+
+Lemma Forall2_Qeq_dotR : forall r s x,
+    Forall2 Qeq r s -> dotR (map Q2R r) x = dotR (map Q2R s) x.
+Proof.
+  intros r s x H. revert x. induction H as [| a b r s Hab H IH]; intros x.
+  - reflexivity.
+  - destruct x as [| t x]; [ reflexivity | ].
+    simpl. rewrite (Qeq_eqR a b Hab), (IH x). reflexivity.
+Qed.
+
+Lemma dotR_negv : forall r x, dotR (map Q2R (negv r)) x = - dotR (map Q2R r) x.
+Proof.
+  induction r as [| a r IH]; intros x.
+  - simpl. ring.
+  - destruct x as [| t x]; [ simpl; ring | ].
+    simpl. unfold negv in IH. rewrite IH, Q2R_opp. ring.
+Qed.
+
+Lemma extract_all_sem : forall V e,
+    NoDup V -> expr_ok V e -> is_linear e = true ->
+    forall rho penv,
+      dotR (map Q2R (extract_all V e)) (map rho V) + Q2R (cterm e) = evalR rho penv e.
+Proof.
+  intros V e HndV (Hwf & Hnd & Hincl & Hal) Hlin rho penv.
+  rewrite (linear_decomposition e Hwf Hnd Hlin rho penv V HndV Hincl).
+  f_equal. unfold extract_all.
+  destruct (fast_path V e) as [r|] eqn:Hfp; [ | reflexivity ].
+  apply Forall2_Qeq_dotR.
+  exact (fast_path_correct V e r Hwf HndV Hfp (Hal r eq_refl)).
+Qed.
+
+Lemma problem_ok_obj : forall V obj cons,
+    problem_ok V obj cons -> NoDup V /\ expr_ok V obj /\ is_linear obj = true.
+Proof.
+  intros V obj cons (HndV & Hlin & Hok).
+  unfold is_linear_problem in Hlin. apply andb_prop in Hlin. destruct Hlin as [Hlo _].
+  repeat split; [ exact HndV | | | | | exact Hlo ]; apply (Hok obj); left; reflexivity.
+Qed.
+
+Lemma problem_ok_con : forall V obj cons e s,
+    problem_ok V obj cons -> In (e, s) cons -> expr_ok V e /\ is_linear e = true.
+Proof.
+  intros V obj cons e s (HndV & Hlin & Hok) Hin.
+  unfold is_linear_problem in Hlin. apply andb_prop in Hlin. destruct Hlin as [_ Hlc].
+  rewrite forallb_forall in Hlc.
+  split.
+  - apply Hok. right. apply in_map_iff. exists (e, s). split; [ reflexivity | exact Hin ].
+  - exact (Hlc (e, s) Hin).
+Qed.
+
+(* a. the objective *)
+Theorem C05_objective : forall V obj maximize cons,
+    problem_ok V obj cons ->
+    let lp := extract_lp V obj maximize cons in
+    forall rho penv,
+      dotR (map Q2R (lp_c lp)) (map rho V) + Q2R (lp_c0 lp) = evalR rho penv obj.
+Proof.
+  intros V obj maximize cons Hok lp rho penv.
+  destruct (problem_ok_obj V obj cons Hok) as (HndV & Heo & Hlo).
+  exact (extract_all_sem V obj HndV Heo Hlo rho penv).
+Qed.
+
+(* b. the constraint rows *)
+Definition is_ub (c : expr * sense) : bool := negb (sense_eqb (snd c) Eq).
+Definition is_eq (c : expr * sense) : bool := sense_eqb (snd c) Eq.
+
+Definition ub_row (V : list string) (c : expr * sense) : list Q * Q :=
+  match snd c with
+  | Ge => (negv (extract_all V (fst c)), (- - cterm (fst c))%Q)
+  | _ => (extract_all V (fst c), (- cterm (fst c))%Q)
+  end.
+
+Definition eq_row (V : list string) (c : expr * sense) : list Q * Q :=
+  (extract_all V (fst c), (- cterm (fst c))%Q).
+
+(* rows are in constraint order: the i-th "<=" row comes from the i-th
+   inequality constraint, the i-th "=" row from the i-th equality constraint *)
+Lemma ub_rows_char : forall V cons,
+    ub_rows V cons = map (ub_row V) (filter is_ub cons).
+Proof.
+  intros V cons. induction cons as [| [e [| |]] cons IH]; simpl.
+  - reflexivity.
+  - rewrite IH. reflexivity.
+  - rewrite IH. reflexivity.
+  - exact IH.
+Qed.
+
+Lemma eq_rows_char : forall V cons,
+    eq_rows V cons = map (eq_row V) (filter is_eq cons).
+Proof.
+  intros V cons. induction cons as [| [e [| |]] cons IH]; simpl.
+  - reflexivity.
+  - exact IH.
+  - exact IH.
+  - rewrite IH. reflexivity.
+Qed.
+
+Lemma row_sem : forall V e,
+    NoDup V -> expr_ok V e -> is_linear e = true ->
+    forall rho penv,
+      dotR (map Q2R (extract_all V e)) (map rho V) - Q2R (- cterm e) = evalR rho penv e.
+Proof.
+  intros V e HndV Hok Hlin rho penv.
+  rewrite <- (extract_all_sem V e HndV Hok Hlin rho penv).
+  rewrite Q2R_opp. ring.
+Qed.
+
+Theorem C05_rows : forall V obj maximize cons,
+    problem_ok V obj cons ->
+    let lp := extract_lp V obj maximize cons in
+    (* order-preserving structure *)
+    lp_Aub lp = map (fun c => fst (ub_row V c)) (filter is_ub cons) /\
+    lp_bub lp = map (fun c => snd (ub_row V c)) (filter is_ub cons) /\
+    lp_Aeq lp = map (fun c => fst (eq_row V c)) (filter is_eq cons) /\
+    lp_beq lp = map (fun c => snd (eq_row V c)) (filter is_eq cons) /\
+    (* each row and right-hand side reproduce the constraint expression *)
+    (forall e s, In (e, s) cons -> forall rho penv,
+        match s with
+        | Le => dotR (map Q2R (fst (ub_row V (e, s)))) (map rho V)
+                - Q2R (snd (ub_row V (e, s))) = evalR rho penv e
+        | Ge => dotR (map Q2R (fst (ub_row V (e, s)))) (map rho V)
+                - Q2R (snd (ub_row V (e, s))) = - evalR rho penv e
+        | Eq => dotR (map Q2R (fst (eq_row V (e, s)))) (map rho V)
+                - Q2R (snd (eq_row V (e, s))) = evalR rho penv e
+        end).
+Proof.
+  intros V obj maximize cons Hok lp.
+  unfold lp, extract_lp. simpl.
+  rewrite ub_rows_char, eq_rows_char, !map_map.
+  repeat split; try reflexivity.
+  intros e s Hin rho penv.
+  destruct (problem_ok_con V obj cons e s Hok Hin) as (Heo & Hle).
+  destruct Hok as (HndV & _ & _).
+  destruct s; unfold ub_row, eq_row; simpl.
+  - exact (row_sem V e HndV Heo Hle rho penv).
+  - rewrite dotR_negv, Q2R_opp.
+    rewrite <- (row_sem V e HndV Heo Hle rho penv). ring.
+  - exact (row_sem V e HndV Heo Hle rho penv).
+Qed.
+
+(* the k-th row of each block is the row of the k-th constraint of that kind *)
+Corollary C05_rows_nth : forall V cons k,
+    nth_error (ub_rows V cons) k = option_map (ub_row V) (nth_error (filter is_ub cons) k)
+    /\ nth_error (eq_rows V cons) k = option_map (eq_row V) (nth_error (filter is_eq cons) k).
+Proof.
+  intros V cons k. rewrite ub_rows_char, eq_rows_char, !nth_error_map. split; reflexivity.
+Qed.
+
+(* the sense of each constraint [e s 0] is the sense of its row *)
+Corollary C05_rows_sense : forall V obj cons,
+    problem_ok V obj cons ->
+    forall e s, In (e, s) cons -> forall rho penv,
+        match s with
+        | Le => dotR (map Q2R (fst (ub_row V (e, s)))) (map rho V)
+                <= Q2R (snd (ub_row V (e, s))) <-> evalR rho penv e <= 0
+        | Ge => dotR (map Q2R (fst (ub_row V (e, s)))) (map rho V)
+                <= Q2R (snd (ub_row V (e, s))) <-> evalR rho penv e >= 0
+        | Eq => dotR (map Q2R (fst (eq_row V (e, s)))) (map rho V)
+                = Q2R (snd (eq_row V (e, s))) <-> evalR rho penv e = 0
+        end.
+Proof.
+  intros V obj cons Hok e s Hin rho penv.
+  destruct (C05_rows V obj false cons Hok) as (_ & _ & _ & _ & Hsem).
+  specialize (Hsem e s Hin rho penv).
+  destruct s; split; intros H; lra.
+Qed.
+
+(* c. alignment of columns with the reported variable names *)
+Lemma lincomb_len : forall V cs vid es,
+    wf (LinComb cs (KVar vid) es) = true -> covers V (vec_names es) = true ->
+    length cs = length V.
+Proof.
+  intros V cs vid es Hw Hc. simpl in Hw.
+  apply andb_prop in Hw. destruct Hw as [Hw _].
+  apply andb_prop in Hw. destruct Hw as [Hlen Hk].
+  apply andb_prop in Hk. destruct Hk as [Hv _].
+  apply Nat.eqb_eq in Hlen.
+  unfold covers in Hc. apply andb_prop in Hc. destruct Hc as [Hc _].
+  apply Nat.eqb_eq in Hc.
+  rewrite Hlen, <- Hc. symmetry. apply vec_names_length. exact Hv.
+Qed.
+
+Lemma fast_path_length : forall V e r,
+    wf e = true -> fast_path V e = Some r -> length r = length V.
+Proof.
+  intros V e r Hwf Hfp.
+  destruct e as [ | | | o l r0 | | vid xs | cs k es | | | | | | | | | ];
+    try discriminate Hfp.
+  - simpl in Hwf. apply andb_prop in Hwf. destruct Hwf as [Hwl Hwr].
+    destruct o; try discriminate Hfp.
+    + destruct l as [ | | | | | vid xs | cs k es | | | | | | | | | ];
+        try discriminate Hfp;
+        destruct r0 as [ q | | | | | | | | | | | | | | | ];
+        try (destruct k; discriminate Hfp); try discriminate Hfp.
+      * simpl in Hfp. destruct (covers V xs); [ | discriminate Hfp ].
+        injection Hfp as <-. apply repeat_length.
+      * destruct k as [vid|]; [ | discriminate Hfp ].
+        simpl in Hfp. destruct (covers V (vec_names es)) eqn:Hc; [ | discriminate Hfp ].
+        injection Hfp as <-. exact (lincomb_len V cs vid es Hwl Hc).
+    + destruct l as [ | | | | | vid xs | cs k es | | | | | | | | | ];
+        try discriminate Hfp;
+        destruct r0 as [ q | | | | | | | | | | | | | | | ];
+        try (destruct k; discriminate Hfp); try discriminate Hfp.
+      * simpl in Hfp. destruct (covers V xs); [ | discriminate Hfp ].
+        injection Hfp as <-. apply repeat_length.
+      * destruct k as [vid|]; [ | discriminate Hfp ].
+        simpl in Hfp. destruct (covers V (vec_names es)) eqn:Hc; [ | discriminate Hfp ].
+        injection Hfp as <-. exact (lincomb_len V cs vid es Hwl Hc).
+    + destruct l as [ c | | | | | vid xs | | | | | | | | | | ];
+        try discriminate Hfp;
+        destruct r0 as [ c' | | | | | vid' xs' | | | | | | | | | | ];
+        try discriminate Hfp.
+      * simpl in Hfp. destruct (covers V xs'); [ | discriminate Hfp ].
+        injection Hfp as <-. apply repeat_length.
+      * simpl in Hfp. destruct (covers V xs); [ | discriminate Hfp ].
+        injection Hfp as <-. apply repeat_length.
+  - simpl in Hfp. destruct (covers V xs); [ | discriminate Hfp ].
+    injection Hfp as <-. apply repeat_length.
+  - destruct k as [vid|]; [ | discriminate Hfp ].
+    simpl in Hfp. destruct (covers V (vec_names es)) eqn:Hc; [ | discriminate Hfp ].
+    injection Hfp as <-. exact (lincomb_len V cs vid es Hwf Hc).
+Qed.
+
+Lemma extract_all_length : forall V e,
+    wf e = true -> length (extract_all V e) = length V.
+Proof.
+  intros V e Hwf. unfold extract_all.
+  destruct (fast_path V e) as [r|] eqn:Hfp.
+  - exact (fast_path_length V e r Hwf Hfp).
+  - unfold all_coefs. apply map_length.
+Qed.
+
+Theorem C05_alignment : forall V obj maximize cons,
+    wf obj = true -> (forall c, In c cons -> wf (fst c) = true) ->
+    let lp := extract_lp V obj maximize cons in
+    lp_names lp = V /\
+    length (lp_c lp) = length V /\
+    Forall (fun row => length row = length V) (lp_Aub lp) /\
+    Forall (fun row => length row = length V) (lp_Aeq lp) /\
+    length (lp_Aub lp) = length (lp_bub lp) /\
+    length (lp_Aeq lp) = length (lp_beq lp).
+Proof.
+  intros V obj maximize cons Hwo Hwc lp. unfold lp, extract_lp. simpl.
+  split; [ reflexivity | ].
+  split; [ exact (extract_all_length V obj Hwo) | ].
+  rewrite ub_rows_char, eq_rows_char.
+  split; [ | split; [ | split; rewrite !map_length; reflexivity ] ].
+  - apply Forall_forall. intros row Hrow.
+    apply in_map_iff in Hrow. destruct Hrow as (p & <- & Hp).
+    apply in_map_iff in Hp. destruct Hp as (c & <- & Hc).
+    apply filter_In in Hc. destruct Hc as [Hc _].
+    unfold ub_row. destruct (snd c); simpl;
+      try (unfold negv; rewrite map_length);
+      exact (extract_all_length V (fst c) (Hwc c Hc)).
+  - apply Forall_forall. intros row Hrow.
+    apply in_map_iff in Hrow. destruct Hrow as (p & <- & Hp).
+    apply in_map_iff in Hp. destruct Hp as (c & <- & Hc).
+    apply filter_In in Hc. destruct Hc as [Hc _].
+    unfold eq_row. simpl. exact (extract_all_length V (fst c) (Hwc c Hc)).
+Qed.
+
+Corollary C05_alignment_ok : forall V obj maximize cons,
+    problem_ok V obj cons ->
+    let lp := extract_lp V obj maximize cons in
+    lp_names lp = V /\
+    length (lp_c lp) = length V /\
+    Forall (fun row => length row = length V) (lp_Aub lp) /\
+    Forall (fun row => length row = length V) (lp_Aeq lp) /\
+    length (lp_Aub lp) = length (lp_bub lp) /\
+    length (lp_Aeq lp) = length (lp_beq lp).
+Proof.
+  intros V obj maximize cons (HndV & Hlin & Hok).
+  apply C05_alignment.
+  - apply (Hok obj). left. reflexivity.
+  - intros c Hc. apply (Hok (fst c)). right. apply in_map. exact Hc.
+Qed.
+
+(* d. sign handling of maximisation and the reported objective value *)
+Lemma dotQ_negv : forall c x, (dotQ (negv c) x == - dotQ c x)%Q.
+Proof.
+  induction c as [| a c IH]; intros x.
+  - simpl. reflexivity.
+  - destruct x as [| t x]; [ simpl; reflexivity | ].
+    simpl. unfold negv in IH. rewrite IH. ring.
+Qed.
+
+Theorem C05_sign : forall lp xq,
+    (* what linprog minimises is -(c.x) for a maximisation, c.x otherwise *)
+    (dotQ (linprog_c lp) xq ==
+     if lp_max lp then - dotQ (lp_c lp) xq else dotQ (lp_c lp) xq)%Q /\
+    (* and the reported value is c.x + c0 in both orientations *)
+    (reported_objective lp (dotQ (linprog_c lp) xq) == dotQ (lp_c lp) xq + lp_c0 lp)%Q.
+Proof.
+  intros lp xq. unfold reported_objective, linprog_c.
+  destruct (lp_max lp).
+  - split; [ apply dotQ_negv | rewrite dotQ_negv; ring ].
+  - split; reflexivity.
+Qed.
+
+Lemma Q2R_dotQ : forall a b, Q2R (dotQ a b) = dotR (map Q2R a) (map Q2R b).
+Proof.
+  induction a as [| x a IH]; intros b.
+  - simpl. apply Q2R_zero.
+  - destruct b as [| y b]; [ simpl; apply Q2R_zero | ].
+    simpl. rewrite Q2R_plus, Q2R_mult, IH. reflexivity.
+Qed.
+
+(* the value reported to the user is the user's objective at the solution *)
+Theorem C05_reported_value : forall V obj maximize cons,
+    problem_ok V obj cons ->
+    let lp := extract_lp V obj maximize cons in
+    forall (xq : list Q) rho penv,
+      map rho V = map Q2R xq ->
+      Q2R (reported_objective lp (dotQ (linprog_c lp) xq)) = evalR rho penv obj.
+Proof.
+  intros V obj maximize cons Hok lp xq rho penv Hx.
+  destruct (C05_sign lp xq) as [_ Hrep].
+  rewrite (Qeq_eqR _ _ Hrep), Q2R_plus, Q2R_dotQ, <- Hx.
+  exact (C05_objective V obj maximize cons Hok rho penv).
+Qed.
+
+(* ------------------------------------------------------------------ *)
+(** * 4. Non-vacuity                                                   *)
+(* ------------------------------------------------------------------ *)
+
+Definition exV : list string := ["x"; "y"]%string.
+
+(* maximise (2+3)*x + 5 *)
+Definition exObj : expr :=
+  Bin Add (Bin Mul (Bin Add (Const 2) (Const 3)) (Var "x")) (Const 5).
+
+Definition exCons : list (expr * sense) :=
+  [ (* [1,2] @ (xy + 1) - 10 <= 0 *)
+    (Bin Sub (LinComb [1; 2]%Q KExpr
+                      [Bin Add (Var "x") (Const 1); Bin Add (Var "y") (Const 1)])
+             (Const 10), Le);
+    (* sum(xy) - 4 == 0    (shortcut) *)
+    (Bin Sub (VSum 0%N ["x"; "y"]%string) (Const 4), Eq);
+    (* (x + 5) ** 1 - 10 <= 0 *)
+    (Bin Sub (Bin Pow (Bin Add (Var "x") (Const 5)) (Const 1)) (Const 10), Le);
+    (* y - 1 >= 0 *)
+    (Bin Sub (Var "y") (Const 1), Ge);
+    (* [3,4] @ xy == 0      (shortcut) *)
+    (LinComb [3; 4]%Q (KVar 0%N) [Var "x"; Var "y"], Eq) ].
+
+Example ex_extract :
+  extract_lp exV exObj true exCons =
+  {| lp_c := [5; 0]%Q; lp_c0 := 5%Q; lp_max := true;
+     lp_Aub := [ [1; 2]; [1; 0]; [0; -1] ]%Q;
+     lp_bub := [ 7; 5; -1 ]%Q;
+     lp_Aeq := [ [1; 1]; [3; 4] ]%Q;
+     lp_beq := [ 4; 0 ]%Q;
+     lp_names := ["x"; "y"]%string |}.
+Proof. vm_compute. reflexivity. Qed.
+
+(* division by a non-zero literal (values up to equality of rationals) *)
+Example ex_div :
+  let e := Bin Sub (Bin Div (Bin Add (Var "y") (Const 3)) (Const 2)) (Const 1) in
+  wf e = true /\ nodiv0 e = true /\ is_linear e = true /\
+  Forall2 Qeq (extract_all exV e) [0; 1 # 2]%Q /\ (cterm e == 1 # 2)%Q.
+Proof.
+  vm_compute. repeat split; try reflexivity.
+  repeat constructor; reflexivity.
+Qed.
+
+Example ex_fast_paths :
+  fast_path exV (Bin Sub (VSum 0%N ["x"; "y"]%string) (Const 4)) = Some [1; 1]%Q
+  /\ fast_path exV (LinComb [3; 4]%Q (KVar 0%N) [Var "x"; Var "y"]) = Some [3; 4]%Q
+  /\ fast_path exV exObj = None.
+Proof. vm_compute. repeat split; reflexivity. Qed.
+
+Example ex_problem_ok : problem_ok exV exObj exCons.
+Proof.
+  split; [ | split ].
+  - unfold exV. repeat constructor; simpl; intuition discriminate.
+  - vm_compute. reflexivity.
+  - intros e He. simpl in He.
+    repeat (destruct He as [<- | He]);
+      try contradiction;
+      (split; [ vm_compute; reflexivity
+              | split; [ vm_compute; reflexivity
+                       | split; [ intros a Ha; simpl in Ha; unfold exV; simpl; tauto
+                                | intros r _; vm_compute; reflexivity ] ] ]).
+Qed.
+
+(* the theorems apply to the example: e.g. the reported objective value at the
+   rational point (1, 3) is (2+3)*1 + 5 = 10 *)
+Example ex_reported :
+  forall penv,
+    Q2R (reported_objective (extract_lp exV exObj true exCons)
+           (dotQ (linprog_c (extract_lp exV exObj true exCons)) [1; 3]%Q))
+    = evalR (env_of exV [1; 3]) penv exObj.
+Proof.
+  intros penv.
+  apply (C05_reported_value exV exObj true exCons ex_problem_ok [1; 3]%Q).
+  simpl. rewrite Q2R_one. f_equal. f_equal. unfold Q2R. simpl. lra.
+Qed.
+
+Print Assumptions const_value_sound.
+Print Assumptions degree0_const_value.
+Print Assumptions linear_decomposition.
+Print Assumptions fast_path_correct.
+Print Assumptions covers_implies_aligned.
+Print Assumptions C05_objective.
+Print Assumptions C05_rows.
+Print Assumptions C05_rows_nth.
+Print Assumptions C05_rows_sense.
+Print Assumptions C05_alignment.
+Print Assumptions C05_sign.
+Print Assumptions C05_reported_value.
+Print Assumptions ex_problem_ok.
